@@ -180,8 +180,9 @@ def refute_query(hyps, goal, rounds=2, cap=300, bound=4):
                         new.append(p)
         new_all += new
     out = list({f.get_id(): f for f in ground + new_all + gground}.values())
-    for c in int_consts(out):
-        out.append(z3.And(c >= -1, c <= bound))
+    if bound is not None:
+        for c in int_consts(out):
+            out.append(z3.And(c >= -1, c <= bound))
     return out
 
 
@@ -340,19 +341,21 @@ def discharge(obls, timeout_s=20, jobs=16, all_backends=False, keep_dir=None, re
         prove_phase(todo, [("z3-5.1", z3new)], lambda i: texts[i])
         # phase R: what is left is first posed in refuting mode (a counter-model, if there is one, comes quickly)
         left = [i for i in todo if verdicts[i] is None]
-        refute_text = {}
         if refute:
-            for i in left:
-                try:
-                    refute_text[i] = to_smt2(refute_query(obls[i].hyps, obls[i].goal), get_model=True)
-                except Exception as ex:
-                    detail[i].append(f"refute-build-error:{ex!r}"[:120])
-            cur = [i for i in left if i in refute_text]
-            for i, r, out, dt in run_phase(cur, z3new, "refute", lambda i: refute_text[i], min(timeout_s, 10)):
-                detail[i].append(f"refute-z3-5.1:{r.split(':')[0]}")
-                t_used[i] += dt
-                if r == "sat":
-                    verdicts[i] = Verdict(obls[i].name, obls[i].kind, "refuted", "z3-5.1(ground)", t_used[i], model=out)
+            for bound in (4, None):          # small models first, then unbounded
+                refute_text = {}
+                cur = [i for i in left if verdicts[i] is None]
+                for i in cur:
+                    try:
+                        refute_text[i] = to_smt2(refute_query(obls[i].hyps, obls[i].goal, bound=bound), get_model=True)
+                    except Exception as ex:
+                        detail[i].append(f"refute-build-error:{ex!r}"[:120])
+                cur = [i for i in cur if i in refute_text]
+                for i, r, out, dt in run_phase(cur, z3new, "refute", lambda i: refute_text[i], min(timeout_s, 10)):
+                    detail[i].append(f"refute(bound={bound})-z3-5.1:{r.split(':')[0]}")
+                    t_used[i] += dt
+                    if r == "sat":
+                        verdicts[i] = Verdict(obls[i].name, obls[i].kind, "refuted", "z3-5.1(ground)", t_used[i], model=out)
         # obligations of a function that already has a refuted obligation are moot: do not spend the ladder on them
         bad_fns = {obls[i].fn for i in range(n) if verdicts[i] is not None and verdicts[i].status == "refuted" and obls[i].fn}
         for i in todo:
